@@ -60,7 +60,8 @@ def _hook(n, lit):
             return getattr(_html, a)(*lit._seq(n.args))
     return None
 
-MAIN = {32768: (32768, 32770, 32773), 32784: (32784, 32785), 65520: (65520, 65535)}
+MAIN = {32768: (32768, 32770, 32773), 32784: (32784, 32785), 65520: (65520, 65535), 40000: (40000, 40001)}
+IGNORED = (40000,)          # an `i` block: HtmlWriter writes no page for it (memory_map leaves it out)
 LOAD = {24576: (24576, 24579)}
 PATHS = {'CodePath': 'asm', 'load-CodePath': 'load', 'AsmSinglePage': 'asm.html', 'load-AsmSinglePage': 'load/load.html'}
 
@@ -75,6 +76,7 @@ def make_writer(cf, anchor_t, fname_t, single):
             ent = Holder()
             ent.address = e
             ent.asm_id = key or ''
+            ent.ctl = 'i' if e in IGNORED else 'c'
             for a in addrs:
                 i = Instr()
                 i.address, i.container, i.asm_label, i.addr_str = a, ent, None, str(a)
@@ -96,6 +98,24 @@ def make_writer(cf, anchor_t, fname_t, single):
     if '#R' not in w.macros:
         raise FactError('get_macros does not register HtmlWriter.expand_r')
     return w
+
+def ignored_rule(ctx, cf, where):
+    """#R naming an address inside an `i` block: whatever expand_r does, it must not hand out a link to the page of that entry - none
+    is written."""
+    for text, a in (('#R40000', 40000), ('#R40001(x)', 40001)):
+        w = make_writer(cf, '{address}', '{address}.html', False)
+        try:
+            got = cf.call_func('skoolmacro', 'expand_macros', [w, text, 'asm'])
+        except NotLiteral as e:
+            ctx.limit(text, 'expand_r not foldable on this text: %s' % str(e)[:120])
+            continue
+        except Exception:
+            ctx.ok()            # an error message is a resolution of its own
+            continue
+        if 'href="40000.html' in got:
+            ctx.violation('HtmlWriter.expand_r `%s` into an ignored entry' % text.split('(')[0], where, '%s, where %d lies in an `i` block, expands to %s: no page is written for an `i` block (HtmlWriter.memory_map leaves it out), so the link names a file that does not exist' % (text, a, got[:80]))
+        else:
+            ctx.ok()
 
 # (macro text, address, code id, explicit anchor or None)
 def texts():
@@ -221,6 +241,10 @@ def make_map(label_at=None):
         stub.instructions.append(i)
     ents['stub'] = stub
     return ents
+
+def run_ignored(ctx, repo):
+    ctx.rule('C16.7-r-links', '')
+    ignored_rule(ctx, ClassFolder(repo, 'skoolhtml', _hook), 'skoolkit/skoolhtml.py')
 
 def run_operands(ctx, repo):
     confs = [('{address}', '{address}.html'), ('{address:04x}', '{address}.html'), ('a{address:04X}', '{address:04x}.html')]
